@@ -535,9 +535,6 @@ Proof.
   - intros H. apply N.eqb_neq in E2. contradiction.
 Qed.
 
-(* a delivered update that changes the state has a canonical attested header *)
-Definition unchanged_or (P : Prop) (s s' : chain) : Prop := s' = s \/ P.
-
 Lemma insert_update_cases now s u next :
   let r := insert_update cfg now s u next in
   fst r = s \/
@@ -569,7 +566,7 @@ Proof.
   destruct (signed_canonical _ _ _ _ _ Hh Hsr Hsig (score_ok _ Hscore)) as [Hcan _].
   pose proof (canonical_next_ok _ _ _ _ Hcan Hproof Hp) as Hok.
   split; [|right; exact Hcan].
-  set (period := per (sh_header _ _ (u_att _ _ u))) in *.
+  unfold per in *. set (period := sync_period (h_slot _ (sh_header _ _ (u_att _ _ u)))) in *.
   unfold Committee.insert_update. fold period.
   destruct (_ || _); [exact HI|].
   destruct (better_than (min_score cfg) (score_of u)); [exact HI|].
@@ -682,9 +679,6 @@ Proof.
   - apply N.eqb_eq in Ev. apply validate_update_ok in Ev. destruct Ev. contradiction.
   - apply N.eqb_neq in Ev. auto.
 Qed.
-
-Lemma validate_not_chain_ok (u : update) : validate_update u <> E_ok -> True.
-Proof. auto. Qed.
 
 Theorem forged_too_few_signers cfg' now s u next :
   let n := signer_count (sh_signers _ _ (u_att _ _ u)) in
